@@ -39,11 +39,11 @@ for item in "${args[@]}"; do
     echo "$name: DOES NOT COMPILE"; restore; fails=$((fails+1)); continue
   fi
   "$VERIF/sim/target/release/simio" run "$prop" quick --root "$ROOT" >"$OUT/run.log" 2>&1; rc=$?
-  viol="$(grep -c '^VIOLATION' "$OUT/run.log")"
-  clauses="$(grep '^violation:' "$OUT/run.log" | sed -E 's/.*clause=([^ ]+).*/\1/' | sort -u | tr '\n' ' ')"
+  viol="$(grep -ac '^VIOLATION' "$OUT/run.log")"
+  clauses="$(grep -a '^violation:' "$OUT/run.log" | sed -E 's/.*clause=([^ ]+).*/\1/' | sort -u | tr '\n' ' ')"
   replay_ok="-"
   if [ "$viol" -gt 0 ]; then
-    f="$(grep '^VIOLATION' "$OUT/run.log" | head -1 | sed -E 's/.*replay=//')"
+    f="$(grep -a '^VIOLATION' "$OUT/run.log" | head -1 | sed -E 's/.*replay=//')"
     "$VERIF/sim/target/release/simio" replay "$f" --root "$ROOT" >"$OUT/replay.log" 2>&1 && replay_ok="REPLAY-DID-NOT-REPRODUCE" || replay_ok="replay-reproduces"
     min="$(jq -c '.minimisation' "$f")"
   else min="-"; fi
